@@ -4,6 +4,7 @@ import (
 	"fmt"
 	"go/token"
 	"go/types"
+	"strconv"
 	"strings"
 
 	"golang.org/x/tools/go/ssa"
@@ -618,6 +619,23 @@ func ruleArgMapping(c *Ctx) {
 		if call, isCall := resolve(kv).(*ssa.Call); isCall {
 			if h := call.Call.StaticCallee(); h != nil && h.Pkg == inj.Pkg && h.Blocks != nil && len(returnsOf(h)) == 1 {
 				kv = returnsOf(h)[0].Results[0]
+			} else if h != nil && h.Pkg == inj.Pkg && h.Blocks != nil && len(returnsOf(h)) > 1 {
+				// "$"+Itoa(i), with a precomputed table of the first keys ("$0", "$1", ...) in front of it
+				var gen ssa.Value
+				okAll := true
+				for _, r := range returnsOf(h) {
+					rv := resolve(r.Results[0])
+					if ps := flattenTemplate(rv); len(ps) > 0 && ps[0].hole == "" && strings.HasPrefix(ps[0].konst, "$") && len(ps) > 1 {
+						gen = rv
+						continue
+					}
+					if !isPositionalKeyTable(rv, h) {
+						okAll = false
+					}
+				}
+				if okAll && gen != nil {
+					kv = gen
+				}
 			}
 		}
 		kparts := flattenTemplate(kv)
@@ -774,8 +792,33 @@ func ruleArgMapping(c *Ctx) {
 	}
 	skips := ""
 	loops := 0
+	// the argument loop: its counter indexes a []string
+	isArgLoop := func(header *ssa.BasicBlock) bool {
+		found := false
+		eachInstr(inj, func(_ *ssa.BasicBlock, _ int, in ssa.Instruction) {
+			ia, ok := in.(*ssa.IndexAddr)
+			if !ok {
+				return
+			}
+			sl, ok := ia.X.Type().Underlying().(*types.Slice)
+			if !ok || !isStringy(sl.Elem()) {
+				return
+			}
+			ix := ia.Index
+			if bo, ok := ix.(*ssa.BinOp); ok {
+				ix = bo.X
+			}
+			if ph, ok := ix.(*ssa.Phi); ok && ph.Block() == header {
+				found = true
+			}
+		})
+		return found
+	}
 	for _, e := range loopBackEdges(inj) {
 		header := e[1]
+		if !isArgLoop(header) {
+			continue // an inner loop over the bytes of one argument
+		}
 		loops++
 		seen := map[*ssa.BasicBlock]bool{}
 		var work []*ssa.BasicBlock
@@ -1124,4 +1167,56 @@ func sameLenOperand(lenCall, y ssa.Value) bool {
 	la, ok1 := lc.Call.Args[0].(*ssa.UnOp)
 	lb, ok2 := y.(*ssa.UnOp)
 	return ok1 && ok2 && la.Op == token.MUL && lb.Op == token.MUL && la.X == lb.X
+}
+
+// isPositionalKeyTable: v is T[i] for a package-level array T that init fills with "$0", "$1", ...
+// (element k is "$"+k) and nothing else writes, and i is a parameter of h.
+func isPositionalKeyTable(v ssa.Value, h *ssa.Function) bool {
+	u, ok := v.(*ssa.UnOp)
+	if !ok || u.Op != token.MUL {
+		return false
+	}
+	ia, ok := u.X.(*ssa.IndexAddr)
+	if !ok {
+		return false
+	}
+	g, ok := ia.X.(*ssa.Global)
+	if !ok || g.Pkg == nil {
+		return false
+	}
+	if _, isParam := resolve(ia.Index).(*ssa.Parameter); !isParam {
+		return false
+	}
+	n := 0
+	okAll := true
+	for _, m := range g.Pkg.Members {
+		fn, isFn := m.(*ssa.Function)
+		if !isFn {
+			continue
+		}
+		for _, f := range withClosures(fn) {
+			eachInstr(f, func(_ *ssa.BasicBlock, _ int, in ssa.Instruction) {
+				st, isSt := in.(*ssa.Store)
+				if !isSt {
+					return
+				}
+				if st.Addr == ssa.Value(g) {
+					okAll = false
+					return
+				}
+				ea, isIA := st.Addr.(*ssa.IndexAddr)
+				if !isIA || ea.X != ssa.Value(g) {
+					return
+				}
+				k, isK := constInt(ea.Index)
+				sv, isS := constString(st.Val)
+				if f.Name() != "init" || !isK || !isS || sv != "$"+strconv.FormatInt(k, 10) {
+					okAll = false
+					return
+				}
+				n++
+			})
+		}
+	}
+	return okAll && n > 0
 }
